@@ -85,7 +85,7 @@ pub fn spec_for(prop: &str) -> Option<Spec> {
         "C05" => Spec { prop: "C05", focus: &[Focus::Hostile, Focus::General, Focus::Size, Focus::Flow], hostile_pct: 30, quick: 700_000, thorough: 25_000_000, floors: &[("X3-frame-delivered-answered-or-reported", 10_000)], rule_text: RULE },
         "C06" => Spec { prop: "C06", focus: &[Focus::Store, Focus::General], hostile_pct: 4, quick: 500_000, thorough: 20_000_000, floors: &[("S1-accepted-publish-sent-or-stored", 5_000), ("S3-store-changes-only-for-a-cause", 100_000), ("S4-resend-store-in-order-after-connack", 1_000), ("S6-only-matching-ack-is-accepted", 2_000)], rule_text: RULE },
         "C07" => Spec { prop: "C07", focus: &[Focus::Qos2In], hostile_pct: 4, quick: 500_000, thorough: 20_000_000, floors: &[("Q1-qos2-notified-at-most-once-per-exchange", 5_000), ("Q2-handled-set-equals-model", 100_000), ("Q4-duplicate-answered-with-pubrec", 500)], rule_text: RULE },
-        "C08" => Spec { prop: "C08", focus: &[Focus::Ids, Focus::Store], hostile_pct: 4, quick: 500_000, thorough: 20_000_000, floors: &[("P1-acquire-returns-free-id", 10_000), ("P3-release-announced-only-for-in-use-id", 5_000), ("P4-in-use-set-equals-model", 100_000), ("P5b-refused-send-releases-id", 1_000), ("P5c-close-releases-inflight-ids", 5_000)], rule_text: RULE },
+        "C08" => Spec { prop: "C08", focus: &[Focus::Ids, Focus::Store, Focus::Size], hostile_pct: 4, quick: 500_000, thorough: 20_000_000, floors: &[("P1-acquire-returns-free-id", 10_000), ("P3-release-announced-only-for-in-use-id", 5_000), ("P4-in-use-set-equals-model", 100_000), ("P5b-refused-send-releases-id", 1_000), ("P5c-close-releases-inflight-ids", 5_000)], rule_text: RULE },
         "C12" => Spec { prop: "C12", focus: &[Focus::Flow], hostile_pct: 3, quick: 500_000, thorough: 20_000_000, floors: &[("F1-vacancy-equals-max-minus-outstanding", 50_000), ("F2-accept-iff-below-receive-maximum", 5_000), ("F3-inbound-excess-not-delivered", 1_000)], rule_text: RULE },
         "C13" => Spec { prop: "C13", focus: &[Focus::Alias], hostile_pct: 3, quick: 500_000, thorough: 20_000_000, floors: &[("AL1-empty-topic-resolvable-at-receiver", 1_000), ("AL2-alias-within-peer-maximum", 2_000), ("AL5-inbound-alias-resolves-to-bound-topic", 300)], rule_text: RULE },
         "C14" => Spec { prop: "C14", focus: &[Focus::Size, Focus::Size, Focus::Store, Focus::Hostile], hostile_pct: 6, quick: 500_000, thorough: 20_000_000, floors: &[("Z1-sent-size-within-peer-maximum", 20_000)], rule_text: RULE },
@@ -99,7 +99,10 @@ pub fn run(ctx: &Ctx) -> Option<Report> {
     let sp = spec_for(&ctx.prop)?;
     let mut rep = run_spec(ctx, &sp);
     match ctx.prop.as_str() {
-        "C08" => rep.merge(run_cases(ctx, 2, 4, "", |i, _seed, r| exhaustion_u16(i, r))),
+        "C08" => {
+            rep.merge(run_cases(ctx, 2, 4, "", |i, _seed, r| exhaustion_u16(i, r)));
+            rep.merge(run_cases(ctx, 3, 8, "", |i, _seed, r| resume_oversize_ids(i, r)));
+        }
         "C14" => rep.merge(run_cases(ctx, 2, 8, "", |i, _seed, r| size_boundaries(i, r))),
         _ => {}
     }
@@ -161,6 +164,80 @@ fn exhaustion_u16(i: u64, rep: &mut Report) {
         }
     }
     rep.distinct_case(format!("exhaustion {:?} {:?} {}", role, ver, i).as_bytes());
+}
+
+/// C08 (directed): a persistent v5.0 session holding one exchange in every stage (PUBLISH awaiting PUBACK, PUBLISH
+/// awaiting PUBREC, bare PUBREL stored, PUBREL with properties stored) is resumed under a Maximum Packet Size that makes
+/// every subset of them oversize; the shared model judges the releases of the dropped ones, then ids are acquired again
+fn resume_oversize_ids(i: u64, rep: &mut Report) {
+    use crate::apkt::*;
+    use crate::conn::*;
+    use crate::refcodec as rc;
+    let idw = if i % 2 == 0 { 2 } else { 4 };
+    let as_client = (i / 2) % 2 == 0;
+    let role = if i / 4 == 0 { if as_client { Role::Client } else { Role::Server } } else { Role::Any };
+    let ver = Ver::V5;
+    let known = known_signatures();
+    for limit in [1u32, 3, 4, 5, 6, 7, 9, 11, 12, 13, 20, 30, 31, 32, 33, 60, 268_435_455] {
+        for auto_pub in [false, true] {
+            let sc = Scenario { role, idw, ver: LVer::V5, focus: Focus::Ids, max_ops: 0, hostile_pct: 0, as_client, speak: Ver::V5, connect_first: false };
+            let mut d = Driver::new(sc, 11);
+            d.known = known.clone();
+            if auto_pub {
+                d.set_opt(Opt::AutoPubResponse, true);
+            }
+            let handshake = |d: &mut Driver, limit: u32, sp: bool| {
+                let connect = Pkt::Connect { ver, clean: false, keep_alive: 0, client_id: b"c".to_vec(), will: None, user: None, pass: None, props: if as_client { vec![p_u32(P_SEI, 50)] } else { vec![p_u32(P_SEI, 50), p_u32(P_MPS, limit)] } };
+                let connack = Pkt::Connack { ver, sp, code: 0, props: if as_client { vec![p_u32(P_MPS, limit)] } else { vec![] } };
+                if as_client {
+                    d.send(connect);
+                    d.feed(&rc::encode(&connack, idw), &[]);
+                } else {
+                    d.feed(&rc::encode(&connect, idw), &[]);
+                    d.send(connack);
+                }
+            };
+            handshake(&mut d, 268_435_455, false);
+            let mut ids = Vec::new();
+            for (k, qos) in [1u8, 2, 2, 2].iter().enumerate() {
+                let Some(id) = d.acquire() else { continue };
+                ids.push(id);
+                d.send(Pkt::Publish { ver, dup: false, qos: *qos, retain: false, topic: b"a".to_vec(), id: Some(id), props: vec![], payload: vec![b'p'; k] });
+            }
+            if ids.len() == 4 {
+                // third: PUBREC, bare PUBREL; fourth: PUBREC, PUBREL with a Reason String
+                for (n, id) in [ids[2], ids[3]].into_iter().enumerate() {
+                    d.feed(&rc::encode(&Pkt::Ack { ver, kind: AckKind::Pubrec, id, code: None, props: None }, idw), &[]);
+                    if !auto_pub {
+                        let props = if n == 1 { Some(vec![p_str(31, "a reason that makes it big")]) } else { None };
+                        d.send(Pkt::Ack { ver, kind: AckKind::Pubrel, id, code: if n == 1 { Some(0) } else { None }, props });
+                    }
+                }
+            }
+            d.closed();
+            handshake(&mut d, limit, true);
+            // the ids of what was dropped are free again, the others are not
+            for _ in 0..5 {
+                d.acquire();
+            }
+            for id in ids.iter() {
+                d.feed(&rc::encode(&Pkt::Ack { ver, kind: AckKind::Pubcomp, id: *id, code: None, props: None }, idw), &[]);
+            }
+            d.closed();
+            let out = d.finish();
+            rep.evaluations += 1;
+            rep.api_calls += out.api_calls;
+            for (k, v) in out.hits.iter() {
+                if k.starts_with('P') {
+                    rep.hit_n(k, *v);
+                }
+            }
+            rep.distinct_case(format!("resume oversize {:?} {} {} limit={} auto_pub={}", role, idw, as_client, limit, auto_pub).as_bytes());
+            for f in out.found.iter().filter(|f| f.property == "C08") {
+                rep.violate(Violation { property: "C08".into(), rule: f.rule.to_string(), signature: f.signature(), what: format!("[resume under Maximum Packet Size {}] {}", limit, f.what), witness: json!({"history": trace_json(&out.trace)}), case: (3, i) });
+            }
+        }
+    }
 }
 
 /// C14: limits exactly at size-1 / size / size+1 of the very packet, for every send path
